@@ -286,6 +286,11 @@ def _evaluate(p, ctx, b, src):
         got = out[inner_key] if wrap == "nested" else {k: v for k, v in out.items() if k not in (dyn("other_top"),)}
         if set(got) != set(exp.values()):
             viol("serialize", f"serialized keys {sorted(got)}")
+        # additional_properties=True lets undeclared keys of a TypedDict through: the declared ones keep their single name
+        out = serialize(tp, root_val, additional_properties=True, **kw)
+        got = out[inner_key] if wrap == "nested" else {k: v for k, v in out.items() if k not in (dyn("other_top"),)}
+        if set(got) != set(exp.values()):
+            viol("serialize", f"serialized keys with additional_properties=True {sorted(got)}", additional_properties=True)
     except Exception as e:
         viol("serialize", f"crash {e!r}", exc=type(e).__name__)
     # 3. schemas
